@@ -3,6 +3,7 @@
 -/
 import D42.Model.Codec
 import D42.Model.Validate
+import D42.Model.Gen
 
 open D42 D42.Sexp
 
@@ -33,6 +34,21 @@ def handle (e : Sexp) : Sexp :=
        let env := mkEnv tab
        encExcept encErrs (validate env sub s v [])
      | _, _, _, _ => .atom "BADINPUT")
+  | .list [.atom "gen", s, .list (.atom "draws" :: ds), tab] =>
+    (match decSchema s, ds.mapM decDraw, decRxTab tab with
+     | some s, some ds, some tab =>
+       let env := mkEnv tab
+       encExcept (fun (r : PyVal × Draws × List Req) =>
+          .list [encVal r.1, .list (.atom "reqs" :: r.2.2.map encReq), encNat r.2.1.length])
+         (runGen (gen env s) ds)
+     | _, _, _ => .atom "BADINPUT")
+  | .list [.atom "regen", .list (.atom "re" :: rs), .list (.atom "draws" :: ds)] =>
+    (match rs.mapM decRe, ds.mapM decDraw with
+     | some rs, some ds =>
+       encExcept (fun (r : Str × Draws × List Req) =>
+          .list [encNats "s" r.1, .list (.atom "reqs" :: r.2.2.map encReq), encNat r.2.1.length])
+         (runGen (genSeq rs) ds)
+     | _, _ => .atom "BADINPUT")
   | .list [.atom "echo-schema", s] =>
     (match decSchema s with | some s => encSchema s | none => .atom "BADINPUT")
   | .list [.atom "echo-value", v] =>
